@@ -40,6 +40,8 @@ def obligations(tier):
     o += [x for x in C11.own_obligations(tier) if x.name == "directed_thread_yield_to"]
     C01 = importlib.import_module("props.C01")
     o += [x for x in C01.own_obligations(tier) if x.name == "main_sched_func"]   # error path of ABT_thread_yield_to must undo its num_blocked pre-increment
+    C17 = importlib.import_module("props.C17")
+    o += [x for x in C17.obligations(tier) if x.name == "xstream_revive"]   # a stale FINISH request on a revived stream: it stops without a join, later work never runs
     o += deepen([x for x in o if x.hooks], tier)
     return o
 
